@@ -230,6 +230,24 @@ def pick (s : S) (w : String) : Cfg × Mode × Nat :=
   if w == "p" then (assemble (storageOf s) s.profP, ctorOf (serverOf s) (some (profileOf s)))
   else (assemble (storageOf s) s.grpP, s.srvMode, s.srvTtl)
 
+/-- One custom-IP bytes field of the backend message: `-` = empty, otherwise the address. -/
+def parsePbIP (v : String) : Option (Bool × String) :=
+  if v == "-" || v == "" then none else some (!(v.contains ':'), v)
+
+/-- `zone;wd:startNs~endNs;…` (weekday 0 = Sunday, nanoseconds since local midnight). -/
+def parsePbSched (zones : List (String × Zone)) (tok : String) : Option PbSchedule :=
+  match semi tok with
+  | [] => none
+  | zn :: ivs =>
+    let tbl : List (Nat × PbDayRange) := ivs.filterMap fun iv =>
+      match iv.splitOn ":" with
+      | [wd, r] =>
+        match r.splitOn "~" with
+        | [a, b] => some (nat! wd, { startNs := int! a, endNs := int! b })
+        | _ => none
+      | _ => none
+    some { zone := (zones.lookup zn).getD {}, days := (List.range 7).map fun d => tbl.lookup d }
+
 def step (s : S) : List String → S × String
   | ["reset"] => ({}, "ok")
   | "list" :: name :: toks =>
@@ -306,6 +324,34 @@ def step (s : S) : List String → S × String
     (s, match serveFaulty e (kind == "cancel") up (host! h) (nat! qt) with
         | none => "nothing"
         | some m => showMsg m)
+  | ["pbprof", fe, custom, parNil, pOn, ad, g, y, svcs, sched, rlNil, rlOn, lists, sbNil, sbOn, dang, nr, mode, v4, v6, ttlNil, ttl] =>
+    -- the profile as the backend sends it, through the model of `DNSProfile.toInternal`
+    let x : PbProfile :=
+      { filteringEnabled := bool! fe
+        customRules := if custom == "-" then [] else lookupList s custom
+        parental := if bool! parNil then none else some
+          { enabled := bool! pOn, blockAdult := bool! ad, generalSafeSearch := bool! g, youtubeSafeSearch := bool! y
+            blockedServices := (csv svcs).map idx, schedule := parsePbSched s.zones sched }
+        ruleLists := if bool! rlNil then none else some { enabled := bool! rlOn, ids := (csv lists).map idx }
+        safeBrowsing := if bool! sbNil then none else some { enabled := bool! sbOn, blockDangerous := bool! dang, blockNrd := bool! nr }
+        mode := match mode with
+          | "unset" => .unset
+          | "null" => .nullIP
+          | "nx" => .nxdomain
+          | "ref" => .refused
+          | _ => .customIP (parsePbIP v4) (parsePbIP v6)
+        ttl := if bool! ttlNil then none else some (int! ttl * 1000000) }
+    (match x.toProfile true with
+     | some p => ({ s with profP := p.conf, mode := p.mode, ttl := p.ttl }, "ok " ++ (if p.filteringOn then "1" else "0"))
+     | none => (s, "rejected"))
+  | ["pbiv", a, b] =>
+    -- one day range of a backend schedule: the interval `DNSProfile.toInternal` stores, or rejected
+    (s, match (PbDayRange.toIv { startNs := int! a, endNs := int! b }) with
+        | some iv => s!"{iv.start}-{iv.stop}"
+        | none => "rejected")
+  | ["special", a, b, c, h, qt] =>
+    let e := envOf (serverOf s) (whoOf s) (upstreamOf s)
+    (s, showMsg (serveSpecial { relay := bool! a, prefetch := bool! b, canary := bool! c } e (host! h) (nat! qt)))
   | _ => (s, "bad-op")
 
 def main : IO Unit := loop step {}
